@@ -11,7 +11,8 @@ RULE = ("Real loopback TCP. (a) Hypothesis-generated peer scripts (1-10 fragment
         "all reads == the peer's byte stream; a read with nothing pending raises TcpTimeoutException after >= 0.8*timeout of wall time and the data the peer sends afterwards arrives intact; "
         "bulk_write reaches the peer -- also 100 KB / 1 MiB written through SO_SNDBUF=4096 to a slow reader with SO_RCVBUF=4096: the bytes the transport reported as sent (looping over its returned counts) are exactly what the peer receives after close(); close(); close() is harmless; connect() after close() works. (b) generated whole sessions (connect, shell/list/stat/pull/push ...) through AdbDevice(TcpTransport) / "
         "AdbDeviceAsync(TcpTransportAsync) against a socket server running the device simulator (server-side fragmentation 1..64 KiB): results == the model's (== in-memory) results. "
-        "Non-trivial: >= 2 reads (a) / >= 2 operations (b). Only lower time bounds are asserted; a wall-clock watchdog expiry is 'inconclusive'. Distinct = case hash.")
+        "(c) AdbDeviceTcp / AdbDeviceTcpAsync constructed with default_transport_timeout_s in {0.3, 0.6} and a banner: connect() to a device that never answers times out like the in-memory session (after about the default timeout: between 0.8x and 3x+3 s, the upper bound confirmed by a second run; the alternative would be read_timeout_s = 8 s), the banner is announced, a healthy connect+shell works. "
+        "Non-trivial: >= 2 reads (a) / >= 2 operations (b). A peer that stops reading for 3 s in the middle of a 1 MiB write through 4 KiB buffers: no single bulk_write(..., 0.3) call on a socket connected with a timeout lasts longer than 2.4 s (confirmed by a second run). Apart from that and (c) only lower time bounds are asserted; a wall-clock watchdog expiry is 'inconclusive'. Distinct = case hash.")
 ASSUMPTIONS = ["kernel loopback TCP", "wall-clock: only lower bounds asserted (>= 0.8 * timeout)", "device simulator behind a socket for part (b)"]
 
 
@@ -22,6 +23,8 @@ def pair_part(check_id, tier, seed):
 def replay(part, case):
     if part == "session":
         return sockcheck.check_session(case)[0]
+    if part == "ctor":
+        return sockcheck.check_ctor_case(case)[0]
     return sockcheck.check_transport(case)[0]
 
 
@@ -31,6 +34,7 @@ def run(tier, seed):
     col = harness.corpus_part(ID, "transport", sockcheck.check_transport)
     col.merge(harness.enumeration_part("transport", lambda sh, n: [c for i, c in enumerate(sockcheck.fixed_transport_cases()) if i % n == sh], sockcheck.check_transport,
                                        hash_of=lambda c: {k: v for k, v in c.items() if k not in ("frags", "tail")}))
+    col.merge(harness.enumeration_part("ctor", lambda sh, n: [c for i, c in enumerate(sockcheck.ctor_cases()) if i % n == sh], sockcheck.check_ctor_case))
     col.merge(harness.hypothesis_part("transport", sockcheck.peer_cases(), sockcheck.check_transport, 128 if quick else 3200, seed))
     col.merge(harness.hypothesis_part("session", sockcheck.session_cases(), sockcheck.check_session, 96 if quick else 2400, seed))
     return harness.finish(ID, tier, seed, LEVEL, col, RULE, ASSUMPTIONS, t0)
